@@ -21,11 +21,16 @@ META = {
 }
 
 SRC = os.path.join(V.VERIF, "harness/C19/impl.cc")
-GKINDS = ["H", "M", "C", "W", "S", "T", "N"]
-OPS_M = [(op, p) for op in ["isend", "irecv", "ibcast", "igather", "iscatter", "iallgather", "iallreduce"] for p in "ijvw"] + \
-        [("ibarrier", "0"), ("default", "i"), ("default", "v"), ("default", "0")]
-OPS_N = [("ibcast", "i"), ("ibcast", "j"), ("ibcast", "v"), ("ibcast", "w"), ("igather", "i"), ("iscatter", "i"), ("iallgather", "i"),
-         ("iallreduce", "i"), ("iallreduce", "j"), ("iallreduce", "v"), ("iallreduce", "w"), ("ibarrier", "0"),
+GKINDS = ["H", "M", "C", "W", "S", "T", "N", "X", "h", "m", "c", "w", "n"]   # lower case: constructor called without the `active` argument
+OPS_M = [(op, p) for op in ["isend", "irecv", "ibcast", "igather", "iscatter", "iallgather", "iallreduce", "iallreduce1"] for p in "ijvw"] + \
+        [(op, p) for op in ["isend", "irecv", "ibcast", "iallreduce1"] for p in "qL"] + [(op, "F") for op in ["isend", "irecv", "ibcast"]] + \
+        [("ibarrier", "0"), ("default", "i"), ("default", "v"), ("default", "0"), ("mkvalid", "i"), ("mkvalid", "v"), ("mkvalid", "0"),
+         ("efuture", "i"), ("efuture", "0")]
+HAS_SEND = ("igather", "iscatter", "iallgather", "iallreduce")            # futures with a send buffer: get_send_data()
+SEND_ORDERS = ["d", "dg", "gd", "vdvg", "rdr", "wdg", "dwv", "gdg"]      # get_send_data at most once (twice is undefined: *nullptr)
+ASSIGN_ORDERS = ["a", "av", "ag", "ga", "wag", "ama", "vagg", "raw"]
+OPS_N = [("ibcast", "i"), ("ibcast", "j"), ("ibcast", "v"), ("ibcast", "w"), ("igather", "i"), ("iscatter", "i"), ("iallgather", "i"), ("ibcast", "q"),
+         ("iallreduce1", "i"), ("iallreduce1", "j"), ("iallreduce1", "v"), ("iallreduce1", "w"), ("iallreduce", "i"), ("iallreduce", "j"), ("iallreduce", "v"), ("iallreduce", "w"), ("ibarrier", "0"),
          ("default", "i"), ("default", "0")]
 
 
@@ -62,12 +67,12 @@ def gen_guard(ctx, P):
     for kind in GKINDS:
         if kind in "ST":
             cols = color_patterns(P)
-        elif kind == "N":
+        elif kind in "NXn":
             cols = ["".join(str(i) for i in range(P))]
         else:
             cols = ["0" * P]
         for col in cols:
-            for act in (1, 0):
+            for act in ((1,) if kind.islower() else (1, 0)):
                 full = kind in ("H", "W") or (kind == "S" and P <= 3)
                 n = None if (full or not q) else (60 if kind in "ST" else 150)
                 if not q and kind in "ST" and P >= 4:
@@ -79,9 +84,9 @@ def gen_guard(ctx, P):
     # unstructured scripts (kept only where the model predicts no deadlock; see run())
     nun = 400 if q else 3000
     for _ in range(nun):
-        kind = rng.choice(["H", "C", "W", "S", "N"])
-        col = rng.choice(color_patterns(P)) if kind == "S" else ("".join(str(i) for i in range(P)) if kind == "N" else "0" * P)
-        act = rng.choice([1, 1, 0])
+        kind = rng.choice(["H", "C", "W", "S", "N", "X", "h", "w"])
+        col = rng.choice(color_patterns(P)) if kind == "S" else ("".join(str(i) for i in range(P)) if kind in "NX" else "0" * P)
+        act = 1 if kind.islower() else rng.choice([1, 1, 0])
         if rng.random() < 0.6:
             # same shape on every rank, outcomes vary
             shape = "".join(rng.choice("xxr") for _ in range(rng.randrange(0, 5)))
@@ -114,7 +119,7 @@ def dep_of(op, P, late, root):
     for r in range(P):
         if r == late:
             continue
-        if op in ("ibarrier", "iallreduce", "iallgather"):
+        if op in ("ibarrier", "iallreduce", "iallreduce1", "iallgather"):
             d[r] = "1"
         elif op in ("ibcast", "iscatter") and late == root:
             d[r] = "1"
@@ -157,20 +162,38 @@ def gen_future(ctx, P):
         for o in sorted(orders):
             add("M", op, pay, "e" if rng.random() < 0.25 else "r", -1, o)
         # delayed start of one rank: `ready` must be false on the dependent ranks before it
-        if P >= 2 and op not in ("default", "isend"):
+        if P >= 2 and op not in ("default", "isend", "mkvalid", "efuture"):
             lo = ["r", "rr", "rvr", "rw", "rg", "rrg", "vrwg", "rgg", "rwr", "vrvg", "rrwr", "rgv"]
             for o in (rng.sample(lo, 5) if q else lo):
                 add("M", op, pay, "r", "auto", o)
         for o in (rng.sample(MOVE_ORDERS, 3) if q else MOVE_ORDERS):
             add("M", op, pay, "r", -1, o)
+        # moves of the type-erased wrapper (unique_ptr: the source is always emptied)
+        if op != "efuture":
+            for o in (rng.sample(MOVE_ORDERS + ASSIGN_ORDERS, 2) if q else MOVE_ORDERS + ASSIGN_ORDERS):
+                add("M", op, pay, "e", -1, o)
+        # move assignment (swap) where F is default-constructible: single-buffer futures by value / void
+        if pay in "iv0qFL" and op not in HAS_SEND:
+            for o in (rng.sample(ASSIGN_ORDERS, 3) if q else ASSIGN_ORDERS):
+                add("M", op, pay, "r", -1, o)
+        if op in HAS_SEND:
+            for o in (rng.sample(SEND_ORDERS, 4) if q else SEND_ORDERS):
+                add("M", op, pay, "e" if False else "r", -1, o)
+    # documented refusals at the start of the operation
+    for o in ("v", "g"):
+        add("M", "irecv", "z", "r", -1, o)
+        add("N", "isend", "i", "r", -1, o)
+        add("N", "irecv", "i", "r", -1, o)
     if P <= (2 if q else 4):
         for (op, pay) in OPS_N:
             orders = set(["vrwgg", "g", "gg", "wg", "gv", "gw", "rg"]) | (set(rng.sample(short, 20)) if q else set(full4) | set(ms))
             for o in sorted(orders):
                 add("N", op, pay, "e" if rng.random() < 0.25 else "r", -1, o)
             if pay not in "jw":   # PseudoFuture<T&> is not move-assignable: the harness cannot continue after a move
-                for o in (rng.sample(MOVE_ORDERS, 2) if q else MOVE_ORDERS):
+                for o in (rng.sample(MOVE_ORDERS + ASSIGN_ORDERS, 3) if q else MOVE_ORDERS + ASSIGN_ORDERS):
                     add("N", op, pay, "r", -1, o)
+                for o in (rng.sample(MOVE_ORDERS + ASSIGN_ORDERS, 1) if q else MOVE_ORDERS + ASSIGN_ORDERS):
+                    add("N", op, pay, "e", -1, o)
     return cases
 
 
@@ -261,7 +284,7 @@ def guard_equal(impl, model):
 
 
 def strip_nerr(e):
-    return re.sub(r"e\d+$", "", e)
+    return re.sub(r"e\d+r\d+$", "", e)
 
 
 def guard_oracle(case, impl, spec):
